@@ -653,7 +653,19 @@ class TaskPool:
                     TASK_STATUS_FAILED,
                     TASK_STATUS_SUCCEEDED
             ):
-                for message in json.loads(outputs_str):
+                outputs = json.loads(outputs_str)
+                if isinstance(outputs, dict):
+                    # {trigger: message} - match triggers, not messages.
+                    # DB may record forced completion rather than message.
+                    messages = [
+                        itask.tdef.outputs[trigger][0]
+                        for trigger in outputs
+                        if trigger in itask.tdef.outputs
+                    ]
+                else:
+                    # BACK COMPAT: [message] (Cylc >8.0.0,<8.3.0)
+                    messages = outputs
+                for message in messages:
                     itask.state.outputs.set_message_complete(message)
                     self.data_store_mgr.delta_task_output(itask, message)
 
